@@ -199,7 +199,19 @@ def _site(chk, prog, f, c, name, bi, si, oi, only=None, skip=()):
                                 neg_edges.append((br.bb, s0))
                             elif u.pred == "sge":
                                 neg_edges.append((br.bb, s1))
-                            elif u.pred == "eq":
+                            else:
+                                # `if (r > 0) ...; if (r == 0) ...;` -- what is left is the negative result
+                                from ..tarrules import _facts_imply_negative
+                                before = []
+                                for cond, outcome, _b in f.guards_at(br.bb):
+                                    if cond.is_inst and cond.op == "icmp" and cond.ops[0] in res and cond.ops[1].is_const and \
+                                            cond.ops[1].is_int and cond.ops[1].sval == 0:
+                                        before.append((cond.pred, outcome))
+                                if not _facts_imply_negative(before):
+                                    for k_, sx_ in ((True, s0), (False, s1)):
+                                        if _facts_imply_negative(before + [(u.pred, k_)]):
+                                            neg_edges.append((br.bb, sx_))
+                            if u.pred == "eq":
                                 zero_edges.append((br.bb, s0))
                             elif u.pred == "ne":
                                 zero_edges.append((br.bb, s1))
@@ -240,6 +252,18 @@ def _site(chk, prog, f, c, name, bi, si, oi, only=None, skip=()):
                     chk.ok("K10-eintr", inst, c, "a negative result with errno == EINTR re-enters the loop with buffer/size/offset unchanged")
                 else:
                     chk.violation("K10-eintr", inst, c, "an interrupted %s (EINTR) is not retried with unchanged arguments" % name)
+                # a bare `do { r = call(...); } while (r < 0 && errno == EINTR);` inside the transfer loop is part of the
+                # call: the obligations on zero, exits and progress are those of the loop around it
+                if eintr_ok and _pure_eintr_retry(f, header, body, c):
+                    outer = None
+                    for (h2, b2) in f.loops:
+                        if h2 is not header and header in b2 and all(x in b2 for x in body):
+                            if outer is None or len(b2) < len(outer[1]):
+                                outer = (h2, b2)
+                    if outer is None:
+                        chk.violation("K10-loop", inst, c, "%s is retried on EINTR only: a short count truncates the transfer" % name)
+                        return
+                    header, body = outer
                 # (3) zero leaves the loop
                 zero_ok = False
                 for (b, s) in zero_edges:
@@ -315,6 +339,47 @@ def _site(chk, prog, f, c, name, bi, si, oi, only=None, skip=()):
                     else:
                         chk.violation("K10-advance", inst + ":" + what, c, "after a short %s the %s operand is not advanced by "
                                       "the number of bytes transferred: data is lost or duplicated" % (name, what))
+
+
+def _pure_eintr_retry(f, header, body, call):
+    """the loop does nothing but repeat `call` while errno == EINTR: no loop-carried values, no stores, no other calls, and
+    every way back to its header is the 'equal' side of a comparison of errno with EINTR"""
+    if any(i.op == "phi" for i in header.insts):
+        return False
+    for b in body:
+        for i in b.insts:
+            if i.op == "store":
+                return False
+            if i.op == "call" and i is not call and norm_callee(i.callee) != "__errno_location" and \
+                    not (i.callee or "").startswith("llvm."):
+                return False
+
+    def errno_eq(cnd):
+        return cnd.is_inst and cnd.op == "icmp" and cnd.pred in ("eq", "ne") and \
+            any(o.is_const and o.is_int and o.sval == EINTR for o in cnd.ops) and \
+            any(x.is_inst and x.op == "call" and norm_callee(x.callee) == "__errno_location"
+                for x in backward_slice(cnd, through_loads=True))
+    n = 0
+    for b in body:
+        if header not in b.succs:
+            continue
+        n += 1
+        t = b.term
+        if not (t.op == "br" and len(t.x["succ"]) == 2):
+            return False
+        cnd = t.ops[0]
+        if errno_eq(cnd):
+            if t.x["succ"][0 if cnd.pred == "eq" else 1] is not header:
+                return False
+        elif cnd.is_inst and cnd.op == "phi" and cnd.ty == "i1":
+            if t.x["succ"][0] is not header:
+                return False
+            for o in cnd.ops:
+                if not ((o.is_const and o.is_int and o.uval == 0) or (errno_eq(o) and o.pred == "eq")):
+                    return False
+        else:
+            return False
+    return n > 0
 
 
 def _reach_within(start, body):
